@@ -40,7 +40,13 @@ RULE = ("(a) seeded traces of 0-12 events (reports of the three severities with 
         "directory; missing / directory source; unknown --charset; an image of 65536 bytes or more for make_bin / make_bk0010_rom / make_wav / make_turbo_wav / -o x.bin, "
         "which fails only when the output is emitted), every potential output pre-existing with sentinel content in half of them; these are the only inputs on which the two known-finding signatures may be used; plus an encoding "
         "stream: programs whose diagnostics print non-ASCII or undecodable file names and quoted non-ASCII literals, under stdout encodings utf-8 / ascii / "
-        "latin-1 / C locale (with and without UTF-8 mode), each under both formats x -W selections. non-trivial = distinct (fault kinds, warning kinds, selector, -W list, format) with >= 1 planted fault or warning, "
+        "latin-1 / C locale (with and without UTF-8 mode), each under both formats x -W selections; plus an output-path stream: every FORM of the path the outputs "
+        "are named after (two and three dots in the file name, dots in directory names, leading './', a '..' segment, hidden names, doubled extensions '.bin.bin' / '.bin.raw', "
+        "other or no extension, absolute paths through a dotted run directory, dotted source names / sources in dotted directories for the default make_bin name and "
+        "--implicit-bin) x where it comes from (-o, make_bin, make_bk0010_rom, make_raw, make_raw plus -o), with --lst (every fourth without), in a directory full of bystander "
+        "files (older listings at every place a mis-cut name could land): a clean or warnings-only program must write exactly the output and the listing next to it (expected "
+        "paths are a literal table, not computed), every third program carries a fault and must leave everything untouched; the fault catalogue also holds the recover-and-continue "
+        "faults (raw characters <expr> of .ascii/.asciz/.rad50 negative, too small, too large, symbolic; characters outside the radix-50 alphabet). non-trivial = distinct (fault kinds, warning kinds, selector, -W list, format) with >= 1 planted fault or warning, "
         "or a distinct trace containing an error-severity report")
 LEVEL_TEXT = ("Coq theorems over decision functions regenerated from reports.py / _cli.py on every run (emit_report, handle_reports.__exit__, "
               "FilterHandler.__call__, the -W loop): a block is left by UnrecoverableError iff an error- or critical-severity report was executed "
@@ -52,7 +58,10 @@ LEVEL_TEXT = ("Coq theorems over decision functions regenerated from reports.py 
               "write-error-leaves-earlier-outputs, cli-write-failure-exits-without-diagnostic; refuted in Props/C07_findings.v, reproduced on every run).")
 LEVEL_NOTE = ("Trusted: Coq kernel + vm_compute, tools/gens/gen_reports.py (fail-closed translation of the if-trees; shape checks of main_cli), "
               "the CLI harness (directory snapshots, parsing of bare/graphical output), Spec/ReportSpec.v. "
-              "The file-system part of the property is correspondence only.")
+              "The file-system part of the property is correspondence only; in the output-path stream the expected output and listing paths are a literal table "
+              "(tools/props/c07.py OUTPATHS: the listing sits next to the output, final '.<format>' extension replaced by '.lst'), trusted as the meaning of "
+              "'writes its outputs'. A catalogue fault that silently stops being diagnosed (status 0, no error line) does not contradict C07's 'iff'; the catalogue "
+              "self-test reports it as a broken correspondence naming the statement, the verdict belongs to the property that demands the error (C06 for values that do not fit).")
 TECHNIQUE = "Coq proof over regenerated decision functions + correspondence on the real classes and on real command-line runs"
 ASSUME = ["the parser/compiler issue diagnostics only through reports.emit_report (checked for the state attributes by the usage scan of C18)",
           "RecoverableError is raised only after an error report (hypothesis `disciplined` of the CLI theorem; observed, not proved)",
@@ -144,6 +153,17 @@ FAULTS = [
     ("cyclic-definition", "eval", "error", "recursive-definition", ["cy{u} = cy{u}", ".word cy{u}"]),
     ("negative-block", "eval", "error", "value-out-of-bounds", [".blkb -1"]),
     ("negative-repeat", "eval", "error", "value-out-of-bounds", [".repeat -1 { nop }"]),
+    # errors after which the assembler RECOVERS with a substitute value (a 0 byte / character) and goes on: raw characters <expr> of the
+    # string directives out of range in either direction, alone and between strings.  The report must still be issued and fail the run.
+    ("ascii-raw-negative-between-strings", "eval", "error", "value-out-of-bounds", ['.ascii "AB"<-1>"C"']),
+    ("ascii-raw-negative-alone", "eval", "error", "value-out-of-bounds", [".ascii <-1>", ".even"]),
+    ("asciz-raw-negative", "eval", "error", "value-out-of-bounds", [".asciz <-2>"]),
+    ("ascii-raw-negative-symbolic", "eval", "error", "value-out-of-bounds", ['.ascii "A"<ng{u}>', "ng{u} = -5"]),
+    ("ascii-raw-too-large", "eval", "error", "value-out-of-bounds", ['.ascii "A"<400>']),
+    ("asciz-raw-too-small", "eval", "error", "value-out-of-bounds", [".asciz <-401>"]),
+    ("rad50-raw-negative", "eval", "error", "value-out-of-bounds", ['.rad50 "AB"<-1>']),
+    ("rad50-raw-too-large", "eval", "error", "value-out-of-bounds", ['.rad50 "AB"<50>']),
+    ("rad50-character-outside-alphabet", "eval", "error", "invalid-character", ['.rad50 "A_B"']),
 ] + [
     # faults that live ONLY in a definition nothing refers to, written with forward references so that the value
     # cannot be computed where it is defined: they are found when the linker resolves every symbol at the end
@@ -385,6 +405,7 @@ def run_cli(d, files, adir, decoys, argv, timeout=60, hashseed=None, osenv=None)
     shutil.rmtree(d, ignore_errors=True)
     make_dir(d, files, adir, decoys)
     before = snapshot(d)
+    argv = [a.replace("{D}", d) for a in argv]          # absolute path forms name the run directory
     env = dict(os.environ)
     env["PYTHONPATH"] = C.REPO
     env["PYTHONDONTWRITEBYTECODE"] = "1"
@@ -763,14 +784,94 @@ def make_encoding_group(rng, ei, gi, wnames):
             "slots": {"makes": [], "out": expected[0], "lst": None}, "osenv": osenv, "encoding": ename}
 
 
+# ---- the output-path dimension: the FORM of the path the outputs are named after (several dots, dots in directory names, leading './',
+# hidden names, '..' segments, doubled extensions, an absolute path through a dotted directory) x where the path comes from.
+# The table states the expectation literally: the listing sits NEXT TO the output file and is named after it, the final '.<format>' extension
+# (if the name has one) replaced by '.lst'.  Nothing here is computed with the string operations of main_cli.
+# (form name, source file, directive lines put first, extra argv, output path relative to the run directory, listing path, origin)
+OUTPATH_DIRS = ["build.d", "sub.d", "rel.1"]
+OUTPATHS = [
+    ("o-plain", "a.mac", [], ["-o", "out.bin"], "out.bin", "out.lst", "o"),
+    ("o-dot-slash", "a.mac", [], ["-o", "./out.bin"], "out.bin", "out.lst", "o"),
+    ("o-two-dots", "a.mac", [], ["-o", "prog.v2.bin"], "prog.v2.bin", "prog.v2.lst", "o"),
+    ("o-three-dots", "a.mac", [], ["-o", "rel.1.2.bin"], "rel.1.2.bin", "rel.1.2.lst", "o"),
+    ("o-dotted-dir", "a.mac", [], ["-o", "build.d/out.bin"], "build.d/out.bin", "build.d/out.lst", "o"),
+    ("o-dotted-dir-two-dots", "a.mac", [], ["-o", "build.d/fw.v3.bin"], "build.d/fw.v3.bin", "build.d/fw.v3.lst", "o"),
+    ("o-dot-slash-dotted-dir", "a.mac", [], ["-o", "./rel.1/out.bin"], "rel.1/out.bin", "rel.1/out.lst", "o"),
+    ("o-parent-segment", "a.mac", [], ["-o", "build.d/../up.bin"], "up.bin", "up.lst", "o"),
+    ("o-hidden", "a.mac", [], ["-o", ".hidden.bin"], ".hidden.bin", ".hidden.lst", "o"),
+    ("o-doubled-extension", "a.mac", [], ["-o", "twice.bin.bin"], "twice.bin.bin", "twice.bin.lst", "o"),
+    ("o-raw-two-dots", "a.mac", [], ["-o", "img.1.raw"], "img.1.raw", "img.1.lst", "o"),
+    ("o-raw-dotted-dir", "a.mac", [], ["-o", "build.d/img.raw"], "build.d/img.raw", "build.d/img.lst", "o"),
+    ("o-bin-then-raw", "a.mac", [], ["-o", "both.bin.raw"], "both.bin.raw", "both.bin.lst", "o"),
+    ("o-no-extension-dotted-dir", "a.mac", [], ["-o", "build.d/image"], "build.d/image", "build.d/image.lst", "o"),
+    ("o-other-extension", "a.mac", [], ["-o", "image.v2"], "image.v2", "image.v2.lst", "o"),
+    ("o-absolute-dotted-dir", "a.mac", [], ["-o", "{D}/abs.bin"], "abs.bin", "abs.lst", "o"),
+    ("o-absolute-two-dots", "a.mac", [], ["-o", "{D}/build.d/abs.v3.bin"], "build.d/abs.v3.bin", "build.d/abs.v3.lst", "o"),
+    ("make-bin-two-dots", "a.mac", ['make_bin "prog.v2.bin"'], [], "prog.v2.bin", "prog.v2.lst", "make"),
+    ("make-bin-dot-slash", "a.mac", ['make_bin "./out.bin"'], [], "out.bin", "out.lst", "make"),
+    ("make-bin-dotted-dir", "a.mac", ['make_bin "build.d/out.bin"'], [], "build.d/out.bin", "build.d/out.lst", "make"),
+    ("make-rom-dotted-dir-two-dots", "a.mac", ['make_bk0010_rom "rel.1/rom.v1.bin"'], [], "rel.1/rom.v1.bin", "rel.1/rom.v1.lst", "make"),
+    ("make-raw-two-dots", "a.mac", ['make_raw "img.1.raw"'], [], "img.1.raw", "img.1.lst", "make"),
+    ("make-raw-dotted-dir", "a.mac", ['make_raw "build.d/img.raw"'], [], "build.d/img.raw", "build.d/img.lst", "make"),
+    ("make-raw-other-extension", "a.mac", ['make_raw "build.d/image.v2"'], [], "build.d/image.v2", "build.d/image.v2.lst", "make"),
+    ("make-bin-default-dotted-source", "src.v1.mac", ["make_bin"], [], "src.v1.bin", "src.v1.lst", "make"),
+    ("make-bin-default-source-in-dotted-dir", "sub.d/main.mac", ["make_bin"], [], "sub.d/main.bin", "sub.d/main.lst", "make"),
+    ("make-bin-default-absolute-source", "{D}/sub.d/main.v2.mac", ["make_bin"], [], "sub.d/main.v2.bin", "sub.d/main.v2.lst", "make"),
+    ("make-bin-relative-to-source-in-dotted-dir", "sub.d/main.mac", ['make_bin "fw.v3.bin"'], [], "sub.d/fw.v3.bin", "sub.d/fw.v3.lst", "make"),
+    ("implicit-bin-dotted-source", "src.v1.mac", [], ["--implicit-bin"], "src.v1.bin", "src.v1.lst", "o"),
+    ("implicit-bin-source-in-dotted-dir", "sub.d/main.mac", [], ["--implicit-bin"], "sub.d/main.bin", "sub.d/main.lst", "o"),
+    ("implicit-bin-dot-slash-source", "./src.v1.mac", [], ["--implicit-bin"], "src.v1.bin", "src.v1.lst", "o"),
+    ("make-raw-plus-o-two-dots", "a.mac", ['make_raw "m.1.raw"'], ["-o", "o.v2.bin"], "o.v2.bin", "o.v2.lst", "make+o"),
+]
+# bystanders: older listings / files at every place a mis-cut path could land; a run must leave them byte for byte
+OUTPATH_BYSTANDERS = ["prog.lst", "out.lst", ".lst", "build.lst", "rel.lst", "sub.lst", "src.lst", "img.lst", "twice.lst", "both.lst", "image.lst",
+                      "o.lst", "m.lst", "m.1.lst", "abs.lst", "main.lst", "fw.lst", "rom.lst", "up.lst", "build.d/out.lst", "build.d/..lst", "a.lst",
+                      "build.d/.lst", "sub.d/.lst", "rel.1/.lst"]
+
+
+def make_outpath_group(rng, oi, gi, wnames):
+    """One output-path form with --lst (every fourth one without): a clean or warnings-only program must write exactly the output and the
+    listing next to it and leave every bystander alone; every third program carries one fault and must fail leaving everything untouched."""
+    form, src, first, argv, out_rel, lst_rel, origin = OUTPATHS[oi % len(OUTPATHS)]
+    rnd = oi // len(OUTPATHS)
+    faulty = (oi + rnd) % 3 == 2
+    lst = (oi + rnd) % 4 != 3
+    if faulty:
+        f = FAULTS[(7 * oi + rnd) % len(FAULTS)]
+        lines, kinds, wids, adir = plant(rng, gen_base(rng), 0, rng.choice([0, 1]))
+        pos = rng.randrange(len(lines) + 1)
+        lines[pos:pos] = [x.replace("{u}", "5") for x in f[4]]
+        kinds = [f[0]]
+    else:
+        lines, kinds, wids, adir = plant(rng, gen_base(rng), 0, rng.choice([0, 1, 2]))
+    lines = first + lines
+    makes = []
+    if origin == "make+o":
+        makes = ["m.1.raw"]
+    elif origin == "make":
+        makes = [out_rel]
+    expected = list(makes) + ([out_rel] if origin != "make" else []) + ([lst_rel] if lst else [])
+    slots = {"makes": makes, "out": out_rel if origin != "make" else None, "lst": lst_rel if lst else None}
+    by = [b for b in OUTPATH_BYSTANDERS if b not in expected]
+    decoys = by + (list(expected) if (kinds or rng.random() < 0.5) else [])
+    dirs = OUTPATH_DIRS + (["adir"] if "directory-include" in kinds else [])
+    variants = [("bare", []), ("graphical", []), (rng.choice(["bare", "graphical"]), w_selection(rng, wnames))]
+    srcrel = src.replace("{D}/", "")
+    srcrel = srcrel[2:] if srcrel.startswith("./") else srcrel
+    return {"gi": gi, "files": {srcrel: "\n".join(lines) + "\n"}, "adir": dirs, "decoys": decoys, "kinds": kinds, "wids": wids,
+            "sel": "outpath:" + form, "lst": lst, "sel_argv": argv + (["--lst"] if lst else []), "expected": expected, "variants": variants,
+            "slots": slots, "sources": [src], "outpath": form, "dirsuffix": ".v1.d"}
+
+
 def argv_of(g, fmt, ws):
-    return ["--report-format", fmt] + w_argv(ws) + g["sel_argv"] + (g.get("sources") or sorted(g["files"]))
+    return["--report-format", fmt] + w_argv(ws) + g["sel_argv"] + (g.get("sources") or sorted(g["files"]))
 
 
 def run_group(g):
     runs = []
     for vi, (fmt, ws) in enumerate(g["variants"]):
-        d = os.path.join(SCRATCH, "run", f"g{g['gi']}")     # same absolute path for every variant (the listing names it)
+        d = os.path.join(SCRATCH, "run", f"g{g['gi']}" + g.get("dirsuffix", ""))     # same absolute path for every variant (the listing names it)
         runs.append(run_cli(d, g["files"], g["adir"], g["decoys"], argv_of(g, fmt, ws), osenv=g.get("osenv")))
     return runs
 
@@ -799,7 +900,7 @@ def ascii_ok(s):
     return all(32 <= ord(c) < 127 for c in s)
 
 
-def cli_part(rep, rng, tier, ngroups, use_coq=True, nfamilies=0, ndisplay=0, nwritefaults=0, nencoding=0):
+def cli_part(rep, rng, tier, ngroups, use_coq=True, nfamilies=0, ndisplay=0, nwritefaults=0, nencoding=0, noutpaths=0):
     wnames = all_warning_names()
     groups = [make_group(rng, gi, wnames, tier) for gi in range(ngroups)]
     for fi in range(nfamilies):
@@ -810,6 +911,12 @@ def cli_part(rep, rng, tier, ngroups, use_coq=True, nfamilies=0, ndisplay=0, nwr
         groups.append(make_writefault_group(rng, wi, len(groups), wnames))
     for ei in range(nencoding):
         groups.append(make_encoding_group(rng, ei, len(groups), wnames))
+    for oi in range(noutpaths):
+        groups.append(make_outpath_group(rng, oi, len(groups), wnames))
+    if noutpaths:
+        rep.exhaustive_parts.append(f"output-path stream: {noutpaths} programs over all {len(OUTPATHS)} path forms (several dots, dotted directories, './', '..', hidden, "
+                                    f"doubled extensions, absolute through a dotted directory; from -o / make_bin / make_bk0010_rom / make_raw / default name / --implicit-bin), "
+                                    f"{len(OUTPATH_BYSTANDERS)} bystander files that must stay untouched")
     if nencoding:
         rep.exhaustive_parts.append(f"encoding stream: {nencoding} programs whose diagnostics print non-ASCII / undecodable file names and quoted literals, "
                                     f"stdout encodings {[e for e, _ in ENC_ENVS]}, file names {[jsafe(_fsname(n)) for n in ENC_NAMES]}, both formats x -W selections")
@@ -874,6 +981,10 @@ def cli_part(rep, rng, tier, ngroups, use_coq=True, nfamilies=0, ndisplay=0, nwr
                 continue
             probs = python_oracle(run, g["expected"], same)
             known = known_signature(g, run, probs)
+            if g.get("outpath"):
+                rep.count("output-path-form:" + g["outpath"])
+                inp["dirsuffix"] = g["dirsuffix"]
+                inp["output_path_form"] = g["outpath"]
             if g.get("writefault"):
                 rep.count("write-fault:" + g["writefault"])
                 inp["write_fault"] = g["writefault"]
@@ -1143,7 +1254,7 @@ def explore(rep, br, tier, seed):
         wargs_part(rep, rng, 150 if tier == "quick" else 1500)
         cli_part(rep, rng, tier, 126 if tier == "quick" else 700, nfamilies=4 if tier == "quick" else 14, ndisplay=8 if tier == "quick" else 40,
                  nwritefaults=len(WRITE_FAULTS) if tier == "quick" else 4 * len(WRITE_FAULTS),
-                 nencoding=10 if tier == "quick" else 50)
+                 nencoding=10 if tier == "quick" else 50, noutpaths=len(OUTPATHS) if tier == "quick" else 3 * len(OUTPATHS))
     finally:
         cleanup()
 
@@ -1175,7 +1286,7 @@ def search(rep, br, tier, seed):
                             replay="props.c07.run_block(warning_control, swallow, trace)")
                 break
         if not rep.violations:
-            cli_part(rep, rng, tier, 60 if tier == "quick" else 300, use_coq=False, nfamilies=4, ndisplay=8, nwritefaults=len(WRITE_FAULTS), nencoding=10)
+            cli_part(rep, rng, tier, 60 if tier == "quick" else 300, use_coq=False, nfamilies=4, ndisplay=8, nwritefaults=len(WRITE_FAULTS), nencoding=10, noutpaths=len(OUTPATHS))
     finally:
         cleanup()
 
@@ -1195,7 +1306,7 @@ def replay(data):
         print("warning_control now:", real_warning_control(inp["W"]))
         return False
     try:
-        d = os.path.join(SCRATCH, "run", "replay")
+        d = os.path.join(SCRATCH, "run", "replay" + inp.get("dirsuffix", ""))
         osenv = inp.get("environment")
         if "files_hex" in inp:
             unhex = lambda h: os.fsdecode(bytes.fromhex(h))
